@@ -47,18 +47,30 @@ func GangOracle() clustermc.Oracle {
 		}
 		actedBind := map[string]bool{}
 		actedEvict := map[string]string{}
-		for _, d := range binds {
-			if j := podJob[d.Pod]; j != nil {
+		boundNow := map[string]bool{}
+		for _, d := range t.Res.Decisions { // sequential: a pod may be bound and evicted in one cycle
+			j := podJob[d.Pod]
+			if j == nil {
+				continue
+			}
+			switch d.Kind {
+			case "bind":
 				get(j.Name, podSet[d.Pod]).bound++
+				boundNow[d.Pod] = true
 				actedBind[j.Name] = true
+			case "evict":
+				if boundNow[d.Pod] {
+					delete(boundNow, d.Pod)
+					get(j.Name, podSet[d.Pod]).bound--
+					get(j.Name, podSet[d.Pod]).evicted += 0
+					actedEvict[j.Name] = d.Action
+				} else if activeBefore[d.Pod] {
+					get(j.Name, podSet[d.Pod]).evicted++
+					actedEvict[j.Name] = d.Action
+				}
 			}
 		}
-		for _, d := range evicts {
-			if j := podJob[d.Pod]; j != nil && activeBefore[d.Pod] {
-				get(j.Name, podSet[d.Pod]).evicted++
-				actedEvict[j.Name] = d.Action
-			}
-		}
+		_, _ = binds, evicts
 		for _, d := range pipes {
 			if j := podJob[d.Pod]; j != nil {
 				get(j.Name, podSet[d.Pod]).piped++
